@@ -37,7 +37,7 @@ class Entry:
 class Member:
     """One possible model state."""
     __slots__ = ("running", "cur", "req", "origin", "last_default", "dzero", "dflt_any",
-                 "latch", "grid_ok", "user_done_since_engage", "counts")
+                 "latch", "grid_ok", "user_done_since_engage", "counts", "last_exp")
 
     def __init__(self):
         self.running = False
@@ -51,6 +51,7 @@ class Member:
         self.grid_ok = True         # every time that entered origin/s so far lies on the 1/64 s grid
         self.user_done_since_engage = False
         self.counts = {}            # per state: number of invocations so far (index into the script)
+        self.last_exp = {}          # per timed state: start+duration of its most recent entry (what a stale expiry would be)
 
     def clone(self):
         m = Member()
@@ -58,6 +59,7 @@ class Member:
             setattr(m, k, getattr(self, k))
         m.cur = self.cur.clone() if self.cur else None
         m.counts = dict(self.counts)
+        m.last_exp = dict(self.last_exp)
         return m
 
 
@@ -152,6 +154,33 @@ class Model:
         m.req = False
         return p, m
 
+    def _hop(self, m, p, cur, exp, tm):
+        """The current timed state has expired at machine time `exp`: hand over, finish, or start over."""
+        sh = self.shape
+        if tm - exp > 3 * max(cur.d or 0, 1):
+            p.events.append("long-pause-expiry")
+        nxt = sh[cur.name].get("next")
+        if nxt is None:
+            p.must_done = True
+            if m.req and not self.auto:
+                m.origin += exp
+                if exp % GRID:
+                    m.grid_ok = False
+                m.cur = Entry(self.first, "restart", pend=0)
+                p.events.append("cycle-restart")
+            else:
+                m.cur = None
+                m.running = False
+                p.stop_predicted = True
+                p.events.append("expiry-finish-stop")
+                if self.auto:
+                    m.req = False
+                    m.latch = False
+        else:
+            m.cur = Entry(nxt, "expiry", pend=exp)
+            p.events.append("expiry-hop")
+        p.expired_since = tm - exp
+
     def _step(self, m, p, now, durations, script_action, choose, nested):
         sh = self.shape
         if not nested:
@@ -185,31 +214,16 @@ class Model:
                     p.c02.append(f"timed state {cur.name} entered at machine time {cur.s / 1e6!r} s with duration "
                                  f"{cur.d / 1e6!r} s {'expired' if expired else 'was still run'} at tm={tm / 1e6!r} s")
                 if expired:
-                    if tm - exp > 3 * max(cur.d, 1):
-                        p.events.append("long-pause-expiry")
-                    nxt = sh[cur.name].get("next")
-                    if nxt is None:
-                        p.must_done = True
-                        if m.req and not self.auto:
-                            m.origin += exp
-                            if exp % GRID:
-                                m.grid_ok = False
-                            m.cur = Entry(self.first, "restart", pend=0)
-                            p.events.append("cycle-restart")
-                        else:
-                            m.cur = None
-                            m.running = False
-                            p.stop_predicted = True
-                            p.events.append("expiry-finish-stop")
-                            if self.auto:
-                                m.req = False
-                                m.latch = False
-                        tm_after_exp = tm - exp
-                    else:
-                        m.cur = Entry(nxt, "expiry", pend=exp)
-                        p.events.append("expiry-hop")
-                        tm_after_exp = tm - exp
-                    p.expired_since = tm_after_exp
+                    self._hop(m, p, cur, exp, tm)
+            elif m.running and cur is not None and not cur.has_run and sh[cur.name]["kind"] == "timed":
+                # "a state that has just been entered is always run once before it can expire": an implementation
+                # that tests a stale expiry (from the state's previous entry) would skip it.  Adopted as a fork, judged (C02).
+                stale = m.last_exp.get(cur.name)
+                if stale is not None and stale < tm and choose():
+                    p.c02.append(f"timed state {cur.name} was entered but expired before it ever ran "
+                                 f"(expiry {stale / 1e6!r} s left over from its previous entry, tm={tm / 1e6!r} s)")
+                    p.expiry_involved = True
+                    self._hop(m, p, cur, stale, tm)
         tm = now - m.origin if m.running else None
         cur = m.cur
         # ---- disengagement outside must_finish
@@ -262,6 +276,7 @@ class Model:
                 cur.s = cur.pend if cur.pend is not None else tm
             if sh[cur.name]["kind"] == "timed":
                 cur.d = durations(cur.name)
+                m.last_exp[cur.name] = cur.s + cur.d
                 if not p.calls:
                     p.fresh_timed_next = sh[cur.name].get("next") or self.first
             p.events.append("entry-by-" + cur.by)
